@@ -57,6 +57,20 @@ pub struct Runner {
     /// C17: judge the allocation counter after every case (any driver can
     /// then be reused as an allocation workload)
     pub alloc_verdict: bool,
+    /// running number of the cases handed to `run` in this process
+    pub case_no: u64,
+    /// execute only the case with this running number (replay of a case that
+    /// was traced cheaply, see `cheap_trace`)
+    pub only_idx: Option<u64>,
+    /// under Miri a full `case` line (hex of the haystack) costs three times
+    /// as much as the case itself: print only the running number, and let the
+    /// orchestrator replay `only_idx=<n>` when the interpreter stops there
+    pub cheap_trace: bool,
+    /// histogram of the real start / end addresses (mod 64) of the placed
+    /// haystacks, and how often each abutted a guard page (evidence for C05)
+    pub start_mod64: [u64; 64],
+    pub end_mod64: [u64; 64],
+    pub placements: [u64; 4],
     /// print a `case` line before every call (always on under Miri, where a
     /// UB report kills the process and must be attributed to a case)
     pub trace: bool,
@@ -103,6 +117,12 @@ impl Runner {
             judge_panics: true,
             force_place: None,
             alloc_verdict: false,
+            case_no: 0,
+            only_idx: None,
+            cheap_trace: cfg!(miri),
+            start_mod64: [0; 64],
+            end_mod64: [0; 64],
+            placements: [0; 4],
             trace: cfg!(miri),
         }
     }
@@ -149,12 +169,26 @@ impl Runner {
         nplace: Place,
         nontrivial: bool,
     ) -> bool {
+        self.case_no += 1;
+        if let Some(k) = self.only_idx {
+            if self.case_no != k {
+                return true;
+            }
+        }
         let prop = self.prop.clone();
         let (hplace, nplace) = match self.force_place {
             Some(p) => (p, p),
             None => (hplace, nplace),
         };
         let ph = self.hay_arena.place(hay, hplace);
+        self.start_mod64[(ph.as_ptr() as usize) % 64] += 1;
+        self.end_mod64[(ph.as_ptr() as usize + ph.len()) % 64] += 1;
+        self.placements[match hplace {
+            Place::Heap => 0,
+            Place::Arena(_) => 1,
+            Place::GuardR => 2,
+            Place::GuardL => 3,
+        }] += 1;
         let pn = self.ndl_arena.place(ndl, nplace);
         // the Mismatch family carries its search needle in `ops`: give it the
         // same guard-page treatment as the construction needle
@@ -165,7 +199,15 @@ impl Runner {
         };
         let case = Case { api, hay: ph, ndl: pn, a, ops };
         set_last(&prop, &case, hplace, nplace, self.force);
-        if self.trace {
+        if self.trace && self.cheap_trace && self.only_idx.is_none() {
+            println!(
+                "{{\"t\":\"case\",\"idx\":{},\"apicode\":{},\"hay_len\":{},\"ndl_len\":{}}}",
+                self.case_no,
+                case.api.code(),
+                case.hay.len(),
+                case.ndl.len()
+            );
+        } else if self.trace {
             // multi-megabyte haystacks are identified by their recipe
             let small;
             let shown: &Case = if case.hay.len() > (1 << 16) {
@@ -261,6 +303,22 @@ impl Runner {
         }
         self.last_ok = ok;
         ok
+    }
+
+    /// Fold the address histograms into the reporter's counters.
+    pub fn flush_histograms(&mut self) {
+        for k in 0..64 {
+            if self.start_mod64[k] > 0 {
+                self.rep.count(&format!("hay_start_mod64_{:02}", k), self.start_mod64[k]);
+            }
+            if self.end_mod64[k] > 0 {
+                self.rep.count(&format!("hay_end_mod64_{:02}", k), self.end_mod64[k]);
+            }
+        }
+        let names = ["placed_exact_heap", "placed_arena_offset", "placed_guard_right", "placed_guard_left"];
+        for (i, n) in names.iter().enumerate() {
+            self.rep.count(n, self.placements[i]);
+        }
     }
 
     /// Shorthand: no extra args, no ops.
